@@ -253,6 +253,45 @@ func returnVals(r *ssa.Return) []ssa.Value {
 				out[i] = st.Val
 			}
 		}
+		// `return x, index` with named results spilled for a defer re-stores each slot
+		// with a load of itself: follow such loads to the store before them
+		for depth := 0; depth < 6; depth++ {
+			lu, ok := out[i].(*ssa.UnOp)
+			if !ok || lu.Op != token.MUL {
+				break
+			}
+			la, ok := lu.X.(*ssa.Alloc)
+			if !ok {
+				break
+			}
+			var prev ssa.Value
+			for _, ins := range lu.Block().Instrs {
+				if ins == ssa.Instruction(lu) {
+					break
+				}
+				if st, ok := ins.(*ssa.Store); ok && st.Addr == ssa.Value(la) {
+					prev = st.Val
+				}
+			}
+			if prev == nil {
+				// a single store in a dominating block
+				var only *ssa.Store
+				n := 0
+				for _, ref := range *la.Referrers() {
+					if st, ok := ref.(*ssa.Store); ok && st.Addr == ssa.Value(la) {
+						n++
+						only = st
+					}
+				}
+				if n == 1 && only.Block().Dominates(lu.Block()) {
+					prev = only.Val
+				}
+			}
+			if prev == nil {
+				break
+			}
+			out[i] = prev
+		}
 	}
 	return out
 }
